@@ -188,7 +188,13 @@ pub fn run(run: &mut Run) {
     if let Ok(text) = std::fs::read_to_string(&p) {
         if let Ok(b) = serde_json::from_str::<Value>(&text) {
             if b["tier"].as_str() == Some(run.tier.as_str()) || b["tier"].is_null() {
-                run.note("tierB", b.clone());
+                let mut summary = b.clone();
+                if let Some(o) = summary.as_object_mut() {
+                    o.remove("conformance_behaviours");
+                }
+                run.note("tierB", summary);
+                let v = conformance(run, &b, if quick { 20 } else { 200 });
+                run.traces_validated += v;
                 run.states += b["schedules"].as_u64().unwrap_or(0);
                 run.transitions += b["choice_points"].as_u64().unwrap_or(0);
                 run.evaluations += b["schedules"].as_u64().unwrap_or(0);
@@ -205,7 +211,80 @@ pub fn run(run: &mut Run) {
     }
 }
 
+/// one run of the conformance shape on real rayon, abstracted like the model does
+fn real_trace(n: usize, fail: Option<usize>, pool: &rayon::ThreadPool) -> String {
+    use rayon::prelude::*;
+    let next_state = AtomicUsize::new(0);
+    let seq = AtomicUsize::new(0);
+    let log: Mutex<Vec<(usize, usize, usize)>> = Mutex::new(vec![]); // (state id, index, completion seq)
+    let _r: Result<Vec<usize>, usize> = pool.install(|| {
+        (0..n)
+            .into_par_iter()
+            .map_init(
+                || next_state.fetch_add(1, Ordering::SeqCst),
+                |st, i| {
+                    let k = seq.fetch_add(1, Ordering::SeqCst);
+                    log.lock().unwrap().push((*st, i, k));
+                    if Some(i) == fail {
+                        Err(i)
+                    } else {
+                        Ok(i)
+                    }
+                },
+            )
+            .collect()
+    });
+    let mut l = log.into_inner().unwrap();
+    l.sort_by_key(|x| x.2);
+    let order: Vec<usize> = l.iter().map(|x| x.1).collect();
+    let mut by_state: std::collections::BTreeMap<usize, Vec<usize>> = Default::default();
+    for (st, i, _) in &l {
+        by_state.entry(*st).or_default().push(*i);
+    }
+    let mut runs: Vec<Vec<usize>> = by_state.into_values().collect();
+    runs.sort();
+    format!("runs={runs:?};order={order:?}")
+}
+
+/// binding of the rayon model to real rayon: every observed real trace must be a model behaviour
+fn conformance(run: &mut Run, b: &Value, reps: usize) -> u64 {
+    let mut validated = 0u64;
+    let mut distinct: std::collections::BTreeSet<String> = Default::default();
+    let pools: Vec<rayon::ThreadPool> = [1usize, 2, 3, 4, 8, 16].iter().map(|t| rayon::ThreadPoolBuilder::new().num_threads(*t).build().expect("pool")).collect();
+    let mut outside = 0;
+    for n in 0..=4usize {
+        for fail in std::iter::once(None).chain((0..n).map(Some)) {
+            let key = format!("n={n};fail={fail:?}");
+            let Some(set) = b["conformance_behaviours"][&key].as_array() else {
+                run.machinery(format!("tier B results lack the behaviour set for {key}"));
+                return validated;
+            };
+            let set: std::collections::BTreeSet<&str> = set.iter().filter_map(|x| x.as_str()).collect();
+            for pool in &pools {
+                for _ in 0..reps {
+                    let t = real_trace(n, fail, pool);
+                    validated += 1;
+                    if !set.contains(t.as_str()) {
+                        outside += 1;
+                        if outside <= 3 {
+                            run.machinery(format!("rayon model too narrow: real rayon showed {t} for {key}, which the model did not explore"));
+                        }
+                    }
+                    distinct.insert(format!("{key}:{t}"));
+                }
+            }
+        }
+    }
+    run.note("tierB.real_traces_checked_for_inclusion", json!(validated));
+    run.note("tierB.distinct_real_behaviours_observed", json!(distinct.len()));
+    validated
+}
+
 pub fn replay(v: &Value) -> bool {
+    if v["variant"].as_str() == Some("model") {
+        println!("this schedule belongs to the rayon model (tier B); re-run `./check C09` to reproduce it: {v}");
+        return false;
+    }
     let n = v["n"].as_u64().unwrap_or(0) as usize;
     let plan: Vec<usize> = v["fail"].as_array().map(|a| a.iter().filter_map(|x| x.as_u64().map(|y| y as usize)).collect()).unwrap_or_default();
     let t = v["threads"].as_u64().unwrap_or(0) as usize;
